@@ -606,6 +606,13 @@ where
                 self.router.on_worker_availability_change(who, true);
             }
         }
+        if is_worker_draining {
+            // A draining worker takes no more work from the backlog, but the job at the head of the
+            // backlog may have been held back for it (sticky routing keeps a key with the worker that
+            // is on it). Let the rest of the pool look at the backlog now: otherwise it waits beside
+            // idle workers until some unrelated event comes along.
+            self.try_route_next_active_job(None)?;
+        }
         Ok(())
     }
 
